@@ -51,13 +51,17 @@ def envTakeover (client cnct snct : Bool) : Env :=
       else if n = "copts.serverNoContextTakeover" then some snct else none,
     i := fun _ => none, fn := fun _ => none }
 
-def envWriteFrame (closeSent client flate fin lockErr : Bool) (op : Nat) (through : Bool) : Env :=
+def envWriteFrame (closeSent client flate fin lockErr staleRsv1 staleFin : Bool) (op : Nat) (through : Bool) : Env :=
   { b := fun n => if n = "closeSent" then some closeSent else if n = "client" then some client
-      else if n = "flate" then some flate else if n = "writeHeader.fin" then some fin
-      else if n = "err!=nil" then some lockErr else none,
+      else if n = "flate" then some flate else if n = "fin" then some fin
+      else if n = "err!=nil" then some lockErr
+      -- the write header is reused from frame to frame: what the previous frame left in it
+      else if n = "writeHeader.rsv1" then some staleRsv1 else if n = "writeHeader.fin" then some staleFin
+      else if n = "writeHeader.masked" then some client else none,
     i := fun n => if n = "opcode" then some (op : Int) else none,
     fn := fun _ => none,
-    pass := fun w => through && w = "select" }
+    pass := fun w => through && w = "select",
+    obs := fun w => if w = "writeFrameHeader" then ["writeHeader.fin", "writeHeader.rsv1", "writeHeader.masked"] else [] }
 
 /-- the decision table of the post-Close guard. -/
 def writeFrameGuardExpected (closeSent lockErr : Bool) (op : Nat) : Res :=
@@ -65,9 +69,13 @@ def writeFrameGuardExpected (closeSent lockErr : Bool) (op : Nat) : Res :=
   else if closeSent && op != 9 && op != 10 then ⟨["writeFrameMu.lock"], .ret "err"⟩
   else ⟨["writeFrameMu.lock"], .opaque "select"⟩
 
-/-- the steps of an emission on which nothing fails. -/
-def writeFrameEmissionExpected (fin : Bool) (op : Nat) : Res :=
-  ⟨["writeFrameMu.lock"] ++ (if op = 8 then ["set closeSent"] else []) ++ ["writeFrameHeader", "writeFramePayload"]
+/-- the steps of an emission on which nothing fails, with the header bits in force when the header is written:
+FIN as asked, RSV1 exactly on the first frame of a compressed message (never on control or continuation frames,
+whatever the previous frame left in the reused header), MASK exactly for a client. -/
+def writeFrameEmissionExpected (client flate fin : Bool) (op : Nat) : Res :=
+  ⟨["writeFrameMu.lock"] ++ (if op = 8 then ["set closeSent"] else []) ++
+    ["writeFrameHeader[writeHeader.fin=" ++ b2s fin ++ ",writeHeader.rsv1=" ++ b2s (flate && (op = 1 || op = 2))
+      ++ ",writeHeader.masked=" ++ b2s client ++ "]", "writeFramePayload"]
     ++ (if fin then ["bw.Flush"] else []), .ret "ok"⟩
 
 def envReader (msgFin ioErr : Bool) (op : Nat) : Env :=
